@@ -8,7 +8,7 @@ the result does not depend on it.
 
 Part 1  site classes (one small function per way a loop body uses the visited entries);
         1c: loops that CHOOSE one entry (`VirtualOS.findMount`: `selStep`, `findMount`, the
-        forbidden last-one-wins variant); 1d: the hash key of a value as a function of the value
+        loop as it was before its repair `preFixFindMount`, the forbidden last-one-wins variant); 1d: the hash key of a value as a function of the value
         alone (`HV`, `HV.key`, `setListing`, the promised order `HV.less`, the forbidden seeded-hash key)
 Part 2  a fragment of the language (literals, globals, `+`, list/map/set literals, index,
         `print`) with the compiler's emission order for map literals under an adversary,
@@ -198,7 +198,13 @@ Every file operation of a script under a virtual OS (`os.read_file`, `os.write_f
 map: an entry whose key IS the path ends the loop at once; otherwise an entry whose key is a prefix
 of the path ending at a component boundary becomes the candidate if it is STRICTLY LONGER than the
 candidate held so far.  Which filesystem serves the access — result, error and side effects of the
-script — is the outcome of this loop. -/
+script — is the outcome of this loop.
+
+Since the repair "fix: choose the longest mount point in findMount by the length of its key" the
+loop remembers the KEY of its candidate (`matchKey`) and compares `len(k) > len(matchKey)`: key
+length against key length (`findMount`).  Before it compared `len(k) > len(match.Target)` — the
+visited key against the candidate's `Target` FIELD, which nothing ties to the key
+(`preFixFindMount`, finding C05-findmount-target-length, now fixed). -/
 
 /-- the state of a choosing loop: it has returned from inside the loop (`done`), or holds the
     best candidate so far -/
@@ -209,8 +215,10 @@ inductive Sel (α : Type) where
 
 /-- one iteration of the loop of `findMount`, abstractly: `exact x` = "return this entry now";
     `ok x` = "the entry qualifies"; a qualifying entry replaces the candidate `m` iff
-    `lenNew x > lenCur m` (the code compares `len(k)` of the visited KEY with
-    `len(match.Target)` of the candidate: two different fields of the entries) -/
+    `lenNew x > lenCur m`.  The repaired code reads both lengths off the KEY (`len(k)` of the
+    visited entry, `len(matchKey)` of the candidate): `findMount` instantiates `lenNew` and
+    `lenCur` with the same function.  The two are kept apart because the loop before the repair
+    read `len(match.Target)` off the candidate, a different field (`preFixFindMount`). -/
 def selStep (exact ok : α → Bool) (lenNew lenCur : α → Nat) (s : Sel α) (x : α) : Sel α :=
   match s with
   | .done a => .done a
@@ -262,10 +270,23 @@ def relOf (path target : List Nat) : List Nat :=
   let rel := if hasPrefixB path target then path.drop target.length else path
   if rel.isEmpty then [47] else rel
 
-/-- **Impl** `VirtualOS.findMount` on the path string it matches (absolute, cleaned): which
-    mount serves the access and the path handed to that mount's filesystem; `vis` = the order
-    in which the `range` over `osObj.mounts` visits the entries -/
+/-- **Impl** `VirtualOS.findMount` (as repaired) on the path string it matches (absolute,
+    cleaned): which mount serves the access and the path handed to that mount's filesystem;
+    `vis` = the order in which the `range` over `osObj.mounts` visits the entries.  A qualifying
+    mount point replaces the candidate iff its KEY is longer than the candidate's KEY; the
+    relative path is still `strings.TrimPrefix(path, match.Target)` (the repair left it alone:
+    it is a function of the chosen mount, so it cannot bring the visiting order back in). -/
 def findMount (path : List Nat) (vis : List MountEnt) : Option (Nat × List Nat) :=
+  match selectLoop (fun e => e.key == path) (fun e => mountMatches path e.key)
+      (fun e => e.key.length) (fun e => e.key.length) vis with
+  | .done e => some (e.id, [47])
+  | .cand (some e) => some (e.id, relOf path e.target)
+  | .cand none => none
+
+/-- `VirtualOS.findMount` BEFORE the repair (historical, kept so the defect stays documented:
+    `Props.C05_fixed_findmount_target_length`): the length of the visited KEY was compared with
+    the length of the candidate's `Target` FIELD -/
+def preFixFindMount (path : List Nat) (vis : List MountEnt) : Option (Nat × List Nat) :=
   match selectLoop (fun e => e.key == path) (fun e => mountMatches path e.key)
       (fun e => e.key.length) (fun e => e.target.length) vis with
   | .done e => some (e.id, [47])
@@ -280,7 +301,9 @@ def findMountLast (path : List Nat) (vis : List MountEnt) : Option (Nat × List 
   | .cand none => none
 
 /-- every mount is registered under its own `Target` (what `cmd/risor` and every caller in the
-    repository does; the guard of finding C05-findmount-target-length) -/
+    repository does).  It WAS the guard of finding C05-findmount-target-length; since the repair
+    no theorem about `findMount` needs it — it only says on which tables the loop before the
+    repair chose like the repaired one (`Props.preFixFindMount_eq_on_own_targets`) -/
 def targetsAreKeys (vis : List MountEnt) : Bool := vis.all (fun e => e.target == e.key)
 
 /-! ### Part 1d — the hash key of a value is a function of the VALUE alone
@@ -372,10 +395,16 @@ def hashKeysReviewed : List (String × String) := [
 ]
 
 /-- the choosing loop of `VirtualOS.findMount` as the extractor prints it (the one range-over-map
-    statement of the function).  Read at the pinned commit against `selStep`: `k == path` →
+    statement of the function).  Read at the repaired commit against `selStep`: `k == path` →
     `done`; a prefix that does not end at a component boundary → next entry; a qualifying entry
-    replaces the candidate iff there is none or `len(k) > len(match.Target)`. -/
+    replaces the candidate iff there is none or `len(k) > len(matchKey)`, and then BOTH `match`
+    and `matchKey` are replaced (so `matchKey` always is the key `match` is registered under). -/
 def findMountLoopsReviewed : List String := [
+  "for k, v := range osObj.mounts { if k == path { return v, \"/\", true } if strings.HasPrefix(path, k) { if !strings.HasSuffix(k, \"/\") && path[len(k)] != '/' { continue } if match == nil || len(k) > len(matchKey) { match, matchKey = v, k } } }"
+]
+
+/-- the loop text before the repair (historical; read against `preFixFindMount`) -/
+def preFixFindMountLoops : List String := [
   "for k, v := range osObj.mounts { if k == path { return v, \"/\", true } if strings.HasPrefix(path, k) { if !strings.HasSuffix(k, \"/\") && path[len(k)] != '/' { continue } if match == nil || len(k) > len(match.Target) { match = v } } }"
 ]
 
@@ -1139,10 +1168,9 @@ inductive SiteClass where
   /-- per-entry effect on the entry's own object only; effects on distinct objects commute -/
   | perEntry
   /-- longest matching key; unique because two prefixes of one path of equal length are equal
-      (`findMount_perm_invariant`, Part 1c: every table whose mounts are registered under their
-      own `Target`; outside that guard finding C05-findmount-target-length,
-      `findMount_counterexample_target`; `Risor.C13.findMount_order_independent` is the same fact
-      in C13's path model) -/
+      (`findMount_perm_invariant`, Part 1c: every table, whatever its `Target` fields are, since
+      the repair of finding C05-findmount-target-length — `C05_fixed_findmount_target_length`;
+      `Risor.C13.findMount_order_independent` is the same fact in C13's path model) -/
   | maxSelect
   /-- first visited failing entry decides the error: order-independent only when at most one
       kind of failure is present (`first_failure_perm_invariant`); otherwise a finding -/
